@@ -280,11 +280,11 @@ macro_rules! value_arms_yes {
                 Val::Tok(t.to_sym())
             })),
             G::OneOf(v) => {
-                let set: Vec<I::Token> = v.iter().map(|s| I::Token::from_sym(*s)).collect();
+                let set = <I::Token as Tok>::mk_set(v);
                 $erase!($cx, one_of(set).map(|t: I::Token| Val::Tok(t.to_sym())))
             }
             G::NoneOf(v) => {
-                let set: Vec<I::Token> = v.iter().map(|s| I::Token::from_sym(*s)).collect();
+                let set = <I::Token as Tok>::mk_set(v);
                 $erase!($cx, none_of(set).map(|t: I::Token| Val::Tok(t.to_sym())))
             }
             G::Select(v) => {
@@ -618,11 +618,11 @@ caps!([F: Fn(SSp) -> CSp + 'a] MappedSpan<CSp, IoInput<SimReader>, F>;);
 caps!([F: Fn(SSp) -> CSp + 'a] WithContext<CSp, MappedSpan<CSp, Stream<SimIter<u8>>, F>>;);
 caps!([F: Fn(CSp) -> CSp + 'a] MappedSpan<CSp, WithContext<CSp, &'a [u8]>, F>; slice, borrow, exact, text_u8);
 caps!([F: Fn(CSp) -> CSp + 'a] MappedSpan<CSp, WithContext<CSp, IoInput<SimReader>>, F>;);
-caps!([F: Fn((u8, SSp)) -> (u8, SSp) + 'a] WithContext<CSp, MappedInput<u8, SSp, Stream<SimIter<(u8, SSp)>>, F>>;);
+caps!([F: Fn((u8, CSp)) -> (u8, CSp) + 'a] WithContext<CSp, MappedInput<u8, CSp, Stream<SimIter<(u8, CSp)>>, F>>;);
 // mapped (token, span) slice: tokens by reference and slices of the underlying pairs; span_from of a
 // mapped input runs to the end-of-input span by design, which has no index re-basing -> not probed
-caps!([F: Fn(&'a (u8, SSp)) -> (&'a u8, &'a SSp) + 'a] MappedInput<u8, SSp, &'a [(u8, SSp)], F>; slice, borrow);
-caps!([F: Fn((u8, SSp)) -> (u8, SSp) + 'a] MappedInput<u8, SSp, Stream<SimIter<(u8, SSp)>>, F>;);
+caps!([F: Fn(&'a (u8, CSp)) -> (&'a u8, &'a CSp) + 'a] MappedInput<u8, CSp, &'a [(u8, CSp)], F>; slice, borrow);
+caps!([F: Fn((u8, CSp)) -> (u8, CSp) + 'a] MappedInput<u8, CSp, Stream<SimIter<(u8, CSp)>>, F>;);
 
 macro_rules! caps_arms_yes {
     ($cx:expr, $sub:ident, $g:expr) => {
